@@ -397,6 +397,7 @@ func (e *Engine) recheckHeld(n *node, qs []query) {
 		// answers NOW for that view (head readers: live)
 		var mt []string
 		if e.drv != nil {
+			// (a reader, once handed out, is not subject to the retention check any more: no floor)
 			line := "dump " + n.kind + " head"
 			if hr.label != "head" {
 				line = fmt.Sprintf("dump %s num %x", n.kind, hr.n)
@@ -410,6 +411,9 @@ func (e *Engine) recheckHeld(n *node, qs []query) {
 			}
 		}
 		for qi, q := range qs {
+			if (q.Kind == "lu" || q.Kind == "casm2") && (qi+len(e.steps))%6 != 0 {
+				continue // held readers: the two further accessors on a rotating sixth
+			}
 			got := readOne(hr.reader, q)
 			if mt != nil {
 				if e.res != nil {
@@ -449,7 +453,7 @@ func (e *Engine) recheckHeld(n *node, qs []query) {
 				continue
 			}
 			kind := q.Kind
-			if q.Kind != "class" && q.Kind != "casm" && isSystem(q.Addr) {
+			if q.Kind != "class" && q.Kind != "casm" && q.Kind != "casm2" && isSystem(q.Addr) {
 				kind = "sys" + kind
 			}
 			qj := qjson(q)
